@@ -21,8 +21,8 @@ EXHAUSTIVE_NOTE = ""
 TRUSTED = ["Model/Algebra.lean, Model/ParentKey.lean are hand-written; tied to location_impl.py / location.py / "
            "parent.py by this run's correspondence (exception classes compared)",
            "Spec/Algebra.lean evaluates coverage position by position up to the largest coordinate in the case"]
-ASSUMPTIONS = ["parents are abstracted to (id, sequence_type, sequence data, ancestors); every parent in the pool "
-               "has an id; ancestors carry no location of their own",
+ASSUMPTIONS = ["parents are abstracted to (id, sequence_type, sequence data, ancestors); ids are None or non-empty "
+               "strings; ancestors carry no location of their own",
                "coordinates are non-negative ints; Python ints modelled as unbounded Int/Nat",
                "cgranges is not installed: the pairwise branch of _intersection_compound_interval is the one checked"]
 MODEL_OPS = None
@@ -141,6 +141,8 @@ def parent_pool(n):
         "chrA<g1": [("chrA", None, s), ("g1", None, None)],
         "chrA<g2": [("chrA", None, s), ("g2", None, None)],
         "chrA<g1<gg": [("chrA", None, s), ("g1", None, None), ("gg", None, None)],
+        "noid+seq": [(None, None, s)],
+        "noid:type": [(None, "chromosome", None)],
     }
 
 
@@ -159,8 +161,9 @@ def cases(run):
         f"of length {g_pairs} every ordered pair x all flags with the strand pair rotating over the 6 pairs; unary ops "
         f"(optimize, optimize_and_combine, merge_overlapping, gap_list, gaps_location, reverse, reverse_strand, "
         f"reset_strand x 3, shift x 4, extend_absolute/relative x 8) on all layouts with <= 3 blocks on length "
-        f"{4 if quick else 5} (with a parent sequence of exactly that length) x 3 strands; parent pool of 9 parents "
-        f"(none, id only, +sequence, other id, +type, other sequence, two different grand-parents, great-grand-parent) "
+        f"{4 if quick else 5} (with a parent sequence of exactly that length) x 3 strands; parent pool of 11 parents "
+        f"(none, id only, +sequence, other id, +type, other sequence, two different grand-parents, great-grand-parent, "
+        f"two without id) "
         f"as all ordered pairs x 14 location pairs x strict flag")
     sh_full = shapes(2, g_full) + [("E", [])]
     for (ka, ba), (kb, bb) in itertools.product(sh_full, repeat=2):
